@@ -4,12 +4,54 @@ import _sigcheck as sc
 KNOWN_DUP = "VerifyTransaction:unsound-accept:duplicate-key-in-multisig-script"
 
 
+MAL = {"variants": 0, "rows": 0, "accepted": 0, "aborts": {}}
+
+
+def oracle_malformed(ctx, v, o, ktypes, drift):
+    """A row holding malformed signature blobs stands for all their concrete realisations (o["vars"]).  Each one: accepted
+    where the property forbids it -> violation; the library aborting the call (panic) is 'NOT accepted' and allowed only where
+    the specification says a malformed blob reaches the library (facts.malex); anything else against the model -> drift."""
+    tx = v["tx"]
+    MAL["rows"] += 1
+    n_acc = n_viol = 0
+    for w in o["vars"]:
+        MAL["variants"] += 1
+        what = "%s %s" % (sc.short_tx(tx), "+".join(w["name"]))
+        if w.get("panic"):
+            if not v["malex"]:
+                ctx.infra("VerifyTransaction panicked on %s although no malformed blob is examined: %s" % (what, w["panic"]))
+            else:
+                # robustness observation, not a verdict: the call is aborted, the transaction is not accepted
+                k = "%s:%s" % ("/".join(sorted(set(w["ktype"]))), "/".join(sorted(set(w["class"]))))
+                MAL["aborts"][k] = MAL["aborts"].get(k, 0) + 1
+            continue
+        n_acc += w["acc"]
+        key = "MalformedSig:accepted:%s:%s" % ("/".join(sorted(set(w["ktype"]))), "/".join(sorted(set(w["class"]))))
+        if w["acc"] and not v["ok"]:
+            n_viol += 1
+            MAL["accepted"] += 1
+            ctx.violation(key, {"tx": sc.short_tx(tx), "ktypes": ktypes, "blob": w["name"], "form": [s["form"] for s in tx["sets"]], "object_history": v["pre"]},
+                          {"ktypes": ktypes, "tx": tx, "variant": w["name"], "model_accepts": v["v"], "property_allows": v["ok"]})
+        elif w["acc"] != v["v"]:
+            if w["acc"] and v["malex"] and key in ctx.known_keys():
+                # the examined blob was counted as a signature (a recorded finding for this blob class) in a set that
+                # holds enough other valid signatures for the property to allow the acceptance: explained, no verdict
+                MAL["explained"] = MAL.get("explained", 0) + 1
+            else:
+                drift.append((what, "real=%s model=%s property_allows=%s" % (w["acc"], v["v"], v["ok"])))
+    return n_acc, n_viol
+
+
 def oracle(ctx, V, obs, ktypes, tag):
     """V rows (model) against observations of the real VerifyTransaction."""
     drift = []
     n_acc = n_viol = 0
     for v, o in zip(V, obs):
         tx = v["tx"]
+        if o.get("vars"):
+            a, nv = oracle_malformed(ctx, v, o, ktypes, drift)
+            n_acc += min(a, 1); n_viol += nv
+            continue
         if o.get("panic"):
             ctx.infra("VerifyTransaction panicked on %s: %s" % (sc.short_tx(tx), o["panic"]))
             continue
@@ -36,6 +78,14 @@ def oracle(ctx, V, obs, ktypes, tag):
         ctx.infra("MODEL-DRIFT (%s, %s): real VerifyTransaction differs from SigTx's model on %d/%d rows without violating the property, e.g. %s"
                   % (tag, ktypes, len(drift), len(V), drift[:3]))
     return n_acc, n_viol
+
+
+def mal_share(v):
+    """share of the malformed-blob rows executed with the slower key types in the quick tier: every single-key row on a
+    fresh object (each blob shape of each key type offered to each key type), seeded shares of the others"""
+    if v["pre"] != "fresh":
+        return 0.1
+    return 1.0 if all(s["form"] == "single" for s in v["tx"]["sets"]) else 0.4
 
 
 def all_sets_signed_by_position(tx):
@@ -111,7 +161,9 @@ def run(ctx):
     if r and binary:
         V, X, M = sc.split_tx_rows(rows)
         names = {m["name"] for m in M}
-        if not ({"queried", "reverify"} <= {v["pre"] for v in V}) or not ({"MutateContent", "MutatePayer", "MutateSig"} <= names) or not any(v["v"] for v in V) or not any(not v["v"] for v in V) or not X:
+        malkinds = {g["kind"] for v in V for s in v["tx"]["sets"] for g in s["sigs"]} & set(sc.MAL_KINDS)
+        if not ({"queried", "reverify"} <= {v["pre"] for v in V}) or not ({"MutateContent", "MutatePayer", "MutateSig"} <= names) or not any(v["v"] for v in V) or not any(not v["v"] for v in V) or not X \
+                or malkinds != set(sc.MAL_KINDS) or not any(v["malex"] for v in V) or any(v["malex"] and v["v"] for v in V):
             ctx.infra("vacuous model run: actions seen %s, V rows %d" % (sorted(names), len(V)))
         cand = sum(1 for v in V if v["v"] and not v["ok"])
         ctx.log("rows: %d VerifyTransaction (%d accepted by the model, %d of them against the property = TLC candidates), %d mutations"
@@ -119,7 +171,7 @@ def run(ctx):
         txs = [v["tx"] for v in V]
         # every row with P-256 keys; byte-exhaustive mutation of a few base transactions, seeded sample for the rest
         muts = [dict(tx=m["tx"], name=m["name"], i=m["i"], j=m["j"], full=(k % 97 == 0)) for k, m in enumerate(M)]
-        obs, mobs = sc.run_sigtx(ctx, binary, sc.KT_FAST, txs, muts, "c16-fast", sample=6 if ctx.thorough else 3)
+        obs, mobs = sc.run_sigtx(ctx, binary, sc.KT_FAST, txs, muts, "c16-fast", sample=6 if ctx.thorough else 3, malfull=ctx.thorough)
         if obs is not None:
             a, nv = oracle(ctx, V, obs, sc.KT_FAST, "all rows")
             ntried += oracle_mut(ctx, M, mobs, sc.KT_FAST)
@@ -130,17 +182,25 @@ def run(ctx):
         nsamp = 6000 if ctx.thorough else 800
         msamp = 400 if ctx.thorough else 40
         for kt in (sc.KT_MIX if ctx.thorough else sc.KT_MIX[:3]):
-            idx = sorted(set(ctx.rng.sample(range(len(V)), min(nsamp, len(V)))) | {i for i, v in enumerate(V) if v["v"] and not v["ok"]})
+            # ... and every malformed-blob row on a fresh object (blob shapes are per key type / scheme), seeded shares of
+            # the others (mal_share)
+            idx = sorted(set(ctx.rng.sample(range(len(V)), min(nsamp, len(V)))) | {i for i, v in enumerate(V) if v["v"] and not v["ok"]}
+                         | {i for i, v in enumerate(V) if sc.has_malformed(v["tx"]) and (ctx.thorough or ctx.rng.random() < mal_share(v))})
             midx = sorted(ctx.rng.sample(range(len(M)), min(msamp, len(M))))
             Vs, Ms = [V[i] for i in idx], [M[i] for i in midx]
             muts = [dict(tx=m["tx"], name=m["name"], i=m["i"], j=m["j"], full=(k % 29 == 0)) for k, m in enumerate(Ms)]
-            obs, mobs = sc.run_sigtx(ctx, binary, kt, [v["tx"] for v in Vs], muts, "c16-" + "-".join(kt), sample=3)
+            obs, mobs = sc.run_sigtx(ctx, binary, kt, [v["tx"] for v in Vs], muts, "c16-" + "-".join(kt), sample=3, malfull=ctx.thorough)
             if obs is None:
                 continue
             a, nv = oracle(ctx, Vs, obs, kt, "sample")
             ntried += oracle_mut(ctx, Ms, mobs, kt)
             nexec += len(obs); nmut += len(mobs); nacc += a
             per_kt["/".join(kt)] = {"rows": len(obs), "accepted": a, "mutations": len(mobs)}
+            ctx.log("%s pass: %d rows executed, %d accepted, %d unsound accepts" % ("/".join(kt), len(obs), a, nv))
+        if MAL["aborts"]:
+            ctx.log("robustness observation (not a verdict): VerifyTransaction panicked on %d malformed-blob inputs, counted as NOT accepted: %s"
+                    % (sum(MAL["aborts"].values()), MAL["aborts"]))
+        ctx.log("malformed signature blobs: %d rows / %d concrete blobs executed, %d accepted" % (MAL["rows"], MAL["variants"], MAL["accepted"]))
         if V:
             ctx.samples.append({"row": sc.short_tx(V[len(V) // 2]["tx"]), "model_accepts": V[len(V) // 2]["v"], "property_allows": V[len(V) // 2]["ok"]})
         if M:
@@ -151,12 +211,15 @@ def run(ctx):
         "rows_executed_on_VerifyTransaction": nexec, "accepted_by_real_code": nacc,
         "mutation_rows": nmut, "byte_mutations_tried": ntried,
         "tlc_candidates_against_property": cand, "per_key_types": per_kt,
+        "malformed_blob_accepted_explained_by_known_finding": MAL.get("explained", 0), "malformed_blob_rows": MAL["rows"], "malformed_blob_variants_executed": MAL["variants"], "malformed_blob_accepted": MAL["accepted"],
+        "library_aborts_on_malformed_blob(robustness observation, counted as NOT accepted)": MAL["aborts"],
         "exhaustive": True, "deviation_switches": {"MaskByPosition": False, "RawScriptFallback": False},
         "constants": {"cfg": "SigTx_C16%s.cfg" % t, "keys": 3, "max_keys_per_script": 3, "max_sigs": 3, "sets": "1 (full), 2 (family of 9), 0/16/17"},
     }, ["operation sequences on one Transaction object: VerifyTransaction on a fresh decode, after GetSignatureAddresses(), and again after a rejection (VerdictPure: the verdict is a function of the bytes)",
         "ideal cryptography: a signature verifies iff it was made by that key over exactly that message",
         "mutations are applied to transactions in builder shape (each set carries exactly m signatures); surplus signatures are never examined by the validator and are outside the mutation claim",
         "abstract keys are bound to real keys of every supported type (P-224/256/384/521, secp256k1, SM2, Ed25519, Ethereum-type); all rows with P-256, seeded samples with the others",
+        "malformed signature blobs (empty, scheme byte only, truncated, over-long, wrong scheme byte; built from a good signature of each key type) in single-key sets and at every position of 1..3-of-2..3 multi-signature sets: each abstract row is executed for all its concrete byte strings (boundary truncation lengths + seeded ones; thorough: every length); a panic of VerifyTransaction on such a row counts as NOT accepted (robustness observation in the evidence), an acceptance is a violation",
         "byte mutations XOR one byte with 0x01, 0x04, 0x80 and a seeded value at the first two, the last and seeded positions of the named region (every position for a subset of rows)"])
 
 
@@ -174,9 +237,15 @@ def replay(ctx):
         bad = mobs is not None and bool(mobs[0]["accepted"])
         what = mobs[0]["accepted"][:3] if mobs else None
     else:
-        obs, mobs = sc.run_sigtx(ctx, binary, kt, [rec["tx"]], [], "replay")
-        bad = obs is not None and obs[0]["acc"] and not rec["property_allows"]
-        what = obs[0] if obs else None
+        obs, mobs = sc.run_sigtx(ctx, binary, kt, [rec["tx"]], [], "replay", malfull=True)
+        if obs is not None and obs[0].get("vars"):
+            # the recorded concrete blob (other realisations of the same abstract row may be recorded findings of their own)
+            hits = [w for w in obs[0]["vars"] if w["acc"] and not rec["property_allows"] and w["name"] == rec.get("variant", w["name"])]
+            bad = bool(hits)
+            what = hits[:3] if hits else "blob %s not accepted (%d concrete blobs of the row executed)" % (rec.get("variant"), len(obs[0]["vars"]))
+        else:
+            bad = obs is not None and obs[0]["acc"] and not rec["property_allows"]
+            what = obs[0] if obs else None
     if obs is None and mobs is None:
         sys.exit(2)
     print("REPLAY property=C16 %s: %s" % ("VIOLATION reproduced" if bad else "not reproduced", what))
